@@ -496,3 +496,47 @@ Theorem C17_bridge_bad_line_any_bus : forall p reply e rd,
   odk_step_replied p reply = Some (Err (OComm e), {| pt_in := rd; pt_out := pt_out p |}, None).
 Proof. exact bridge_bad_line_any_bus. Qed.
 Print Assumptions C17_bridge_bad_line_any_bus.
+
+(* ---------- the bridge serving a whole stream of requests ---------- *)
+Check eq_refl : odk_run =
+  fix odk_run (p : port) (answers : list (option msg)) : option (list (result oerr unit * option msg) * port) :=
+    match answers with
+    | [] => Some ([], p)
+    | a :: rest =>
+        match odk_step_replied p (fun _ => a) with
+        | None => None
+        | Some (res, p', fwd) =>
+            match odk_run p' rest with
+            | None => None
+            | Some (l, p'') => Some ((res, fwd) :: l, p'')
+            end
+        end
+    end.
+Check eq_refl : answers_written = fun answers : list (option msg) =>
+  concat (map (fun a => match a with Some rm => encode_nl (frame_of_msg rm) | None => [] end) answers).
+
+(* Request frames back to back on the line (any fragmentation, any interruptions), a bus that answers as scripted:
+   every request is forwarded in order as the message its frame stands for, the frames written back are exactly those of
+   the answers given, in order, and the bytes after the last request stay in the port. *)
+Theorem C17_bridge_conversation : forall fs answers trailing out ws rs,
+  length fs = length answers -> Forall wf_frame fs -> clean_w ws -> clean_r rs ->
+  exists p',
+    odk_run {| pt_in := {| r_content := concat (map encode_nl fs) ++ trailing; r_sched := rs |};
+               pt_out := {| w_out := out; w_sched := ws |} |} answers
+    = Some (map (fun f => (Ok tt, Some (msg_of_frame f))) fs, p')
+    /\ w_out (pt_out p') = out ++ answers_written answers
+    /\ r_content (pt_in p') = trailing.
+Proof. exact bridge_conversation. Qed.
+Print Assumptions C17_bridge_conversation.
+
+Example C17_ex_bridge_conversation :
+  option_map (fun r => (map snd (fst r), w_out (pt_out (snd r)), r_content (pt_in (snd r))))
+    (odk_run {| pt_in := {| r_content := encode_nl (frame_of_msg (Hello 3)) ++ encode_nl (frame_of_msg (SendData 0 [1]))
+                                         ++ encode_nl (frame_of_msg (QueryState 3)) ++ [58];
+                            r_sched := [RData 0; RIntr] |};
+                pt_out := {| w_out := []; w_sched := [WAccept 0; WIntr] |} |}
+             [Some (ReportState 3 Unconfigured); None; Some (ReportState 3 ConfigReceived)])
+  = Some ([Some (Hello 3); Some (SendData 0 [1]); Some (QueryState 3)],
+          encode_nl (frame_of_msg (ReportState 3 Unconfigured)) ++ encode_nl (frame_of_msg (ReportState 3 ConfigReceived)),
+          [58]).
+Proof. vm_compute. reflexivity. Qed.
